@@ -413,9 +413,6 @@ impl<'ast, 'psess, 'c> ModResolver<'ast, 'psess> {
                     if outside_mods_empty {
                         return Ok(None);
                     } else {
-                        if should_insert {
-                            mods_outside_ast.push((file_path, dir_ownership, sub_mod.clone()));
-                        }
                         return Ok(Some(SubModKind::MultiExternal(mods_outside_ast)));
                     }
                 }
@@ -547,12 +544,9 @@ impl<'ast, 'psess, 'c> ModResolver<'ast, 'psess> {
                 continue;
             }
             if self.psess.is_file_parsed(&actual_path) {
-                // If the specified file is already parsed, then we just use that.
-                result.push((
-                    actual_path,
-                    DirectoryOwnership::Owned { relative: None },
-                    sub_mod.clone(),
-                ));
+                // The file has been read already: either it is in the file map (under the
+                // declaration that reached it first), or it was left out on purpose (it is
+                // skipped or does not parse). The declaration is not the file's content.
                 continue;
             }
             let (attrs, items, span) =
